@@ -283,10 +283,17 @@ def prove(prop, modules, extra_targets=("unytmodel",)):
 
 
 def load_known():
+    """known_findings.json plus known_findings.d/*.json (one file per property is allowed)"""
+    out = []
     p = os.path.join(VERIF, "known_findings.json")
-    if not os.path.exists(p):
-        return []
-    return json.load(open(p, encoding="utf-8"))["findings"]
+    if os.path.exists(p):
+        out += json.load(open(p, encoding="utf-8"))["findings"]
+    d = os.path.join(VERIF, "known_findings.d")
+    if os.path.isdir(d):
+        for fn in sorted(os.listdir(d)):
+            if fn.endswith(".json"):
+                out += json.load(open(os.path.join(d, fn), encoding="utf-8"))["findings"]
+    return out
 
 
 def write_replay(prop, payload):
@@ -398,7 +405,7 @@ class Check:
             "trusted_base": TRUSTED_BASE,
             "known_findings_confirmed": known_confirmed,
         }
-        if self.proof is not None:
+        if self.proof is not None and self.proof["discharged"] > 0:
             cov["obligations"] = self.proof["obligations"]
             cov["discharged"] = self.proof["discharged"]
             cov["theorems"] = self.proof["theorems"]
